@@ -58,6 +58,33 @@ class Unsupported(Exception):
     pass
 
 
+_MISSING = object()
+
+
+def _fold(args, pick):
+    if len(args) == 1 and isinstance(args[0], (list, tuple)):
+        args = tuple(args[0])
+    out = args[0]
+    for a in args[1:]:
+        if z3.is_expr(out) or z3.is_expr(a):
+            out = pick(out, a)
+        else:
+            out = pick(out, a, concrete=True)
+    return out
+
+
+def zmax(*args):
+    return _fold(args, lambda a, b, concrete=False: (a if a >= b else b) if concrete else z3.If(a >= b, a, b))
+
+
+def zmin(*args):
+    return _fold(args, lambda a, b, concrete=False: (a if a <= b else b) if concrete else z3.If(a <= b, a, b))
+
+
+def zabs(a):
+    return z3.If(a >= 0, a, -a) if z3.is_expr(a) else (a if a >= 0 else -a)
+
+
 class Interp:
     def __init__(self, values=None, prefix="v"):
         self.leaves = []
@@ -67,7 +94,29 @@ class Interp:
         self.vars = {}  # path -> z3 var created for a numeric leaf
 
     def ev(self, e, ctx):
-        return e(ctx) if callable(e) else e
+        """evaluate a length/count: an int, a construct `this`-expression or a python lambda of the context.  Lambdas may call
+        max/min/abs on terms: those builtins are shadowed by term-building versions in the lambda's globals for the call."""
+        if not callable(e):
+            return e
+        import types
+
+        g = e.__globals__ if isinstance(e, types.FunctionType) else None
+        saved = {}
+        if g is not None:
+            for name, f in (("max", zmax), ("min", zmin), ("abs", zabs)):
+                saved[name] = g.get(name, _MISSING)
+                g[name] = f
+        try:
+            return e(ctx)
+        except z3.Z3Exception as exc:
+            raise Unsupported(f"expression {e!r} cannot be evaluated on terms: {exc}") from exc
+        finally:
+            if g is not None:
+                for name, old in saved.items():
+                    if old is _MISSING:
+                        g.pop(name, None)
+                    else:
+                        g[name] = old
 
     def numvar(self, path):
         if path in self.values:
